@@ -1739,7 +1739,9 @@ package go9p
 //@ func (*Srv).openPost(srv, req)
 //@   property C04 C05 C06
 //@   requires req != nil
-//@   ensures  req.Fid != nil ==> (req.Fid.opened <==> req.Rc != nil && req.Rc.Type == 113)
+// (from the property: a failed or refused operation leaves the fid as it was; Ropen opens it)
+//@   ensures  [C05 C04 opens] req.Fid != nil && req.Rc != nil && req.Rc.Type == 113 ==> req.Fid.opened
+//@   ensures  [C05 C04 stays] req.Fid != nil && !(req.Rc != nil && req.Rc.Type == 113) ==> req.Fid.opened == old(req.Fid.opened)
 //@   assigns  req.Fid.opened
 
 //@ func (*Srv).createPost(srv, req)
